@@ -305,6 +305,9 @@ CS101_FileServer_handleAsdu(void* parameter, IMasterConnection connection,  CS10
             {
                 FileReady fileReady = (FileReady) CS101_ASDU_getElementEx(asdu, (InformationObject) ioBuf, 0);
 
+                if (fileReady == NULL)
+                    return CS101_PLUGIN_RESULT_INVALID_ASDU;
+
                 int ioa = InformationObject_getObjectAddress((InformationObject) fileReady);
 
                 self->fileReceiver = NULL;
@@ -366,6 +369,9 @@ CS101_FileServer_handleAsdu(void* parameter, IMasterConnection connection,  CS10
             {
                 SectionReady sectionReady = (SectionReady) CS101_ASDU_getElementEx(asdu, (InformationObject) ioBuf, 0);
 
+                if (sectionReady == NULL)
+                    return CS101_PLUGIN_RESULT_INVALID_ASDU;
+
                 self->currentSectionNumber = SectionReady_getNameOfSection(sectionReady);
                 self->currentSectionOffset = 0;
                 self->currentSectionSize = SectionReady_getLengthOfSection(sectionReady);
@@ -384,6 +390,9 @@ CS101_FileServer_handleAsdu(void* parameter, IMasterConnection connection,  CS10
             if (self->state == RECEIVE_SECTION)
             {
                 FileSegment segment = (FileSegment) CS101_ASDU_getElementEx(asdu, (InformationObject) ioBuf, 0);
+
+                if (segment == NULL)
+                    return CS101_PLUGIN_RESULT_INVALID_ASDU;
 
                 uint8_t nos = FileSegment_getNameOfSection(segment);
                 uint8_t los = FileSegment_getLengthOfSegment(segment);
@@ -410,6 +419,9 @@ CS101_FileServer_handleAsdu(void* parameter, IMasterConnection connection,  CS10
                 DEBUG_PRINT ("Received F_LS_NA_1 (last segment/section)\n");
 
                 FileLastSegmentOrSection lastSection = (FileLastSegmentOrSection) CS101_ASDU_getElementEx(asdu, (InformationObject) ioBuf, 0);
+
+                if (lastSection == NULL)
+                    return CS101_PLUGIN_RESULT_INVALID_ASDU;
 
                 uint8_t lsq = FileLastSegmentOrSection_getLSQ(lastSection);
 
@@ -484,6 +496,9 @@ CS101_FileServer_handleAsdu(void* parameter, IMasterConnection connection,  CS10
             if (self->state != UNSELECTED_IDLE)
             {
                 FileACK ack = (FileACK) CS101_ASDU_getElementEx(asdu, (InformationObject) ioBuf, 0);
+
+                if (ack == NULL)
+                    return CS101_PLUGIN_RESULT_INVALID_ASDU;
 
                 uint8_t afq = FileACK_getAFQ(ack);
 
@@ -611,6 +626,9 @@ CS101_FileServer_handleAsdu(void* parameter, IMasterConnection connection,  CS10
             if (CS101_ASDU_getCOT(asdu) == CS101_COT_FILE_TRANSFER)
             {
                 FileCallOrSelect sc = (FileCallOrSelect) CS101_ASDU_getElementEx(asdu, (InformationObject) ioBuf, 0);
+
+                if (sc == NULL)
+                    return CS101_PLUGIN_RESULT_INVALID_ASDU;
 
                 uint8_t scq = FileCallOrSelect_getSCQ(sc);
                 int ioa = InformationObject_getObjectAddress((InformationObject) sc);
